@@ -106,6 +106,11 @@ func (c *Cluster) UpsertRegionHeartbeat(meta manifest.RegionMeta) error {
 	if meta.ID == 0 {
 		return ErrInvalidRegionID
 	}
+	// An empty range ([start, end) with end <= start) overlaps nothing, so it would be
+	// accepted next to any region and then shadow that region in GetRegionByKey.
+	if len(meta.EndKey) > 0 && bytes.Compare(meta.StartKey, meta.EndKey) >= 0 {
+		return ErrInvalidRegionRange
+	}
 
 	c.mu.Lock()
 	defer c.mu.Unlock()
